@@ -127,7 +127,7 @@ class CopyWorld:
     props = ('C17',)
     levels = {'C17': 'exploration'}
     chunk = 400
-    budget = {'quick': dict(runs=20000, wall=40.0), 'thorough': dict(runs=1000000, wall=900.0)}
+    budget = {'quick': dict(runs=20000, wall=180.0), 'thorough': dict(runs=1000000, wall=900.0)}
     time_unit = 'n/a: logical steps only'
     state_measure = 'distinct (class, sub-object attached?, instance Parameter copies present?, snapshot kind) tuples at the snapshot'
     components = {'real': ['Parameterized.__getstate__/__setstate__ (watcher re-binding)', 'Parameter slot pickling', '_InstancePrivate state',
